@@ -45,6 +45,7 @@ TARGETS = [
                                "u16", "u32", "u64", "u128", "i128_magnitude", "u128_msb", "u128_hi", "u128_lo",
                                "u128_mul_u128", "u256_idiv_u64", "u256_idiv_u128_special", "u256_idiv_u128",
                                "i128_shifted_div_mod_floor", "i256_div_mod_floor"]),
+    ("fpdec-core/src/parser.rs", ["chunk_contains_8_digits", "chunk_to_u64"]),
     ("fpdec-core/src/rounding.rs", ["round_quot", "i128_div_rounded", "i128_shifted_div_rounded",
                                     "i128_mul_div_ten_pow_rounded"]),
 ]
@@ -903,6 +904,8 @@ def coq_ty(t):
     if t == "ordering": return "comparison"
     if t == "derr": return "derr"
     if t == "tferr": return "tferr"
+    if t == "gperr": return "gperr"
+    if t == "str": return "(list Z)"
     if t[0] == "named" and t[1] == "DecimalError": return "derr"
     if t[0] == "result": return "(%s + %s)" % (coq_ty(t[1]), coq_ty(t[2]))
     if t[0] == "ref": return coq_ty(t[1])
@@ -917,9 +920,11 @@ def norm_ty(t, self_ty, assoc=None):
     if isinstance(t, tuple):
         if t[0] == "named":
             if t[1] == "Decimal": return "dec"
-            if assoc and t[1] in assoc and t[1] in ("Output", "Error"):
+            if assoc and t[1] in assoc and t[1] in ("Output", "Error", "Err"):
                 return norm_ty(assoc[t[1]], self_ty)
             if t[1] == "TryFromDecimalError": return "tferr"
+            if t[1] == "ParseDecimalError": return "gperr"
+            if t[1] == "str": return "str"
             if t[1] in ("Self", "Output"):
                 if self_ty is None: raise Unsupported("Self outside an impl")
                 return self_ty
@@ -1024,6 +1029,8 @@ class Fn:
                 out = "let %s := %s in\n%s" % (p[1], p[2], out)
             elif p[0] == "panic":
                 out = "Panic"
+            elif p[0] == "tryres":
+                out = "match %s with\n| inr e_ => Val (inr e_)\n| inl %s => %s\nend" % (p[2], p[1], out)
             elif p[0] == "try":     # (try, pat, opt_term, none_code)
                 out = "match %s with\n| None => %s\n| Some %s => %s\nend" % (p[2], p[3], p[1], out)
         return out
@@ -1072,6 +1079,8 @@ class Fn:
                 return [], "E_" + p[1], "derr"
             if len(p) == 2 and p[0] == "TryFromDecimalError":
                 return [], "TE_" + p[1], "tferr"
+            if len(p) == 2 and p[0] == "ParseDecimalError":
+                return [], "GP_" + p[1], "gperr"
             if len(p) == 2 and (p[0] == "Decimal" or (p[0] == "Self" and self.self_ty == "dec")) and "Decimal::" + p[1] in self.impl_consts:
                 t, ce = self.impl_consts["Decimal::" + p[1]]
                 save = self.self_ty; self.self_ty = "dec"
@@ -1155,6 +1164,13 @@ class Fn:
         if k == "try":
             pre, a, t = self.e(x[1], env, None)
             t = resolve(t)
+            if isinstance(t, tuple) and t[0] == "result":
+                rt = resolve(self.ret)
+                if not (isinstance(rt, tuple) and rt[0] == "result") or self.mutrefs:
+                    raise Unsupported("? on a Result in a function not returning Result")
+                unify(t[2], rt[2])
+                r = self.fresh()
+                return pre + [("tryres", r, a)], r, t[1]
             if not (isinstance(t, tuple) and t[0] == "opt"):
                 raise Unsupported("? on a non-Option")
             rt = resolve(self.ret)
@@ -1250,6 +1266,8 @@ class Fn:
             w = want[1] if isinstance(want, tuple) and want[0] == "opt" else None
             pre, a, t = self.e(x[2][0], env, w)
             return pre, "(Some %s)" % atom(a), ("opt", t)
+        if p in (["Result", "Ok"], ["Result", "Err"]):
+            p = p[1:]
         if p in (["Ok"], ["Err"]) and len(x[2]) == 1:
             w = resolve(want) if want is not None else None
             wt = (w[1] if p == ["Ok"] else w[2]) if isinstance(w, tuple) and w[0] == "result" else None
@@ -1257,6 +1275,12 @@ class Fn:
             if p == ["Ok"]:
                 return pre, "(inl %s)" % atom(a), ("result", t, w[2] if isinstance(w, tuple) and w[0] == "result" else TVar())
             return pre, "(inr %s)" % atom(a), ("result", w[1] if isinstance(w, tuple) and w[0] == "result" else TVar(), t)
+        if p in (["min"], ["max"], ["core", "cmp", "min"], ["core", "cmp", "max"]) and len(x[2]) == 2:
+            pa, a, ta = self.e(x[2][0], env, None)
+            pb, b, tb = self.e(x[2][1], env, ta)
+            t = unify(ta, tb)
+            if not is_int(t): raise Unsupported("min/max of non-integers")
+            return pa + pb, "(Z.%s %s %s)" % (p[-1], atom(a), atom(b)), t
         if p == ["RoundingMode", "default"] and not x[2]:
             self.needs_dflt = True
             return [], "dflt", "mode"
@@ -1290,6 +1314,14 @@ class Fn:
             name = "%s::%s" % (self.f["impl"], p[1])
         elif len(p) > 1 and p[0] not in ("crate", "super", "self"):
             raise Unsupported("call of %s" % "::".join(p))
+        if name in EXTERNALS and name not in self.sigs:
+            ext = EXTERNALS[name]
+            pre, args = [], []
+            for (pn, pt), a in zip(ext["params"], x[2]):
+                pp, t, ty = self.e(a, env, pt); pre += pp; args.append(atom(t))
+            self.externals_used = getattr(self, "externals_used", set()) | {name}
+            r = self.fresh()
+            return pre + [("bind", r, "ext_%s %s" % (name, " ".join(args)))], r, ext["ret"]
         if name not in self.sigs:
             raise Unsupported("call of untranslated function %s" % name)
         return self.call_sig(name, x[2], env)
@@ -1340,6 +1372,10 @@ class Fn:
             return pl + pr, "(wrap %s (%s %s %s))" % (tyname(t), atom(l), o, atom(r)), t
         if m == "from" and len(args) == 0 and False:
             pass
+        if m == "trailing_zeros" and not args and tlr in INT_TYPES:
+            return pl, "(tz %d %s)" % (INT_TYPES[tlr][0], atom(l)), "u32"
+        if m == "leading_zeros" and not args and tlr in INT_TYPES and not INT_TYPES[tlr][1]:
+            return pl, "(lz %d %s)" % (INT_TYPES[tlr][0], atom(l)), "u32"
         if m == "signum" and not args:
             return pl, "(Z.sgn %s)" % atom(l), tl
         if m == "map" and len(args) == 1 and isinstance(tlr, tuple) and tlr[0] == "opt" and args[0][0] in ("closure", "path"):
@@ -1543,6 +1579,13 @@ class Fn:
             ex = s[1]
             if ex[0] == "macro":
                 return self.macro_stmt(ex, env, rest)
+            if ex[0] == "call" and ex[1][0] == "path" and ex[1][1][-1] == "swap" and len(ex[2]) == 2 \
+                    and all(a[0] == "mutref" and a[1][0] == "path" and len(a[1][1]) == 1 and a[1][1][0] in env for a in ex[2]):
+                # mem::swap(&mut u, &mut v)
+                u_, v_ = ex[2][0][1][1][0], ex[2][1][1][1][0]
+                unify(env[u_], env[v_])
+                code, pure = rest(env)
+                return "let '(%s, %s) := (%s, %s) in\n%s" % (self.v(u_), self.v(v_), self.v(v_), self.v(u_), code), pure
             if ex[0] == "if":
                 return self.if_stmt(ex, env, rest, k)
             if ex[0] == "match":
@@ -1769,8 +1812,9 @@ class Fn:
             rcoq = "(" + " * ".join(rts) + ")"
         else:
             rcoq = coq_ty(rt)
-        head = "Definition %s (pf : profile)%s %s : res %s :=\n" % (
-            coq_name(f["name"]), " (dflt : mode)" if self.needs_dflt else "", params, atom(rcoq))
+        exts = "".join(" (ext_%s : %s)" % (n_, EXTERNALS[n_]["coq"]) for n_ in sorted(getattr(self, "externals_used", ())))
+        head = "Definition %s (pf : profile)%s%s %s : res %s :=\n" % (
+            coq_name(f["name"]), " (dflt : mode)" if self.needs_dflt else "", exts, params, atom(rcoq))
         text = "".join(self.loops) + head + body + ".\n"
 
         def sub(m):
@@ -2046,10 +2090,15 @@ DEC_TARGETS = [
                       "Decimal::floor", "Decimal::ceil", "Decimal::trunc", "Decimal::fract"]),
     ("src/binops/rem.rs", ["rem", "Rem::rem"]),
     ("src/binops/checked_rem.rs", ["CheckedRem::checked_rem"]),
+    ("src/from_str.rs", ["FromStr::from_str"]),
+    ("src/as_integer_ratio.rs", ["gcd_special", "AsIntegerRatio::as_integer_ratio", "AsIntegerRatio::numerator", "AsIntegerRatio::denominator"]),
     ("src/binops/add_sub.rs", ["coeff_or_panic", "Add::add", "Sub::sub"]),
     ("src/binops/checked_add_sub.rs", ["CheckedAdd::checked_add", "CheckedSub::checked_sub"]),
 ]
-FUELS = {"normalize": 256, "rem": 256}
+FUELS = {"normalize": 256, "rem": 256, "gcd_special": 400}
+# functions that stay outside the translation: they become parameters of the functions that call them
+EXTERNALS = {"str_to_dec": dict(params=[("lit", "str")], ret=("result", ("tup", ("i128", "isize")), "gperr"),
+                                coq="(list Z -> res ((Z * Z) + gperr))")}
 PRIM_METHODS = {"cmp", "partial_cmp", "eq", "ne", "lt", "le", "gt", "ge", "abs", "neg", "checked_add", "checked_sub",
                 "checked_mul", "checked_div", "checked_rem", "wrapping_add", "wrapping_sub", "wrapping_mul", "unsigned_abs",
                 "signum", "map", "unwrap", "unwrap_or", "unwrap_or_else", "is_negative", "is_positive", "hash", "default"}
@@ -2228,7 +2277,9 @@ def main():
                "(* enum DecimalError (src/errors.rs): only the variants the translated functions name *)",
                "Inductive derr := E_InternalOverflow | E_DivisionByZero | E_MaxNFracDigitsExceeded | E_InfiniteValue | E_NotANumber.",
                "(* enum TryFromDecimalError *)",
-               "Inductive tferr := TE_NotAnIntValue | TE_ValueOutOfRange.", ""]
+               "Inductive tferr := TE_NotAnIntValue | TE_ValueOutOfRange.",
+               "(* enum ParseDecimalError *)",
+               "Inductive gperr := GP_Empty | GP_Invalid | GP_FracDigitLimitExceeded | GP_InternalOverflow.", ""]
     try:
         st_dec, base_dec = generate(DEC_TARGETS, [], OUT_DEC, hdr_dec, "dec", base)
     except Exception as ex:
